@@ -50,6 +50,9 @@ def setup_config(cfg, root):
     pre = lena_modules()
     if pre:
         raise RuntimeError("lena modules present before configuration: %r" % (pre,))
+    for name in cfg.get("without", []):
+        # an optional third-party dependency that is not installed: importing it raises ImportError
+        sys.modules[name] = None
     if cfg["kind"] == "only":
         importlib.import_module("lena." + cfg["subpackage"])
     else:
